@@ -44,6 +44,14 @@ from .props_stop import retry_run as _retry_run, WSCB_RUN as _WSCB_RUN  # noqa: 
 WSUP_RUN = {"harness": "hwscb", "driver": "wscbdrv", "corpus": "wscb-c05", "fields": _WSCB_RUN["fields"], "custom": _retry_run,
             "gen_args": ["-tier", "c05"], "quick": {"n": 6, "shards": 6}, "thorough": {"n": 24, "shards": 12}}
 
+# C05 at Stop / Shutdown of the HTTP engine (seed C05-e): hstop's forced schedules with a request handler held by the
+# harness while Stop / Shutdown closes its connection — the connection's close handling (CloseAndClean, OnClose, delete
+# from engine.conns) is a MustExecute job of the conn's queue and must neither overlap that handler nor run before it
+# has finished; direct oracles c05-overlap / c05-close-order (`hstop gen -tier c05`, corpus stopsim-c05).
+from .props_stop import STOP_RUN as _STOP_RUN  # noqa: E402
+HSIM_RUN = {"harness": "hstop", "driver": "stopdrv", "corpus": "stopsim-c05", "fields": _STOP_RUN["fields"], "custom": _retry_run,
+            "gen_args": ["-tier", "c05"], "quick": {"n": 3, "shards": 6}, "thorough": {"n": 10, "shards": 12}}
+
 PROPS = {
     "C05": {
         "manifest": {
@@ -65,8 +73,8 @@ PROPS = {
                     "lt|et|etos) checks the consequence 'HTTP handler and WebSocket callbacks of one connection never overlap' with "
                     "the oracle c05-overlap; its model side is C14's WsCb.execOf table (those paths use the same per-conn ExecQ)",
             "technique": "Lean 4 proof (inductive invariant of a transition system) + schedule replay / differential correspondence"},
-        "lean": ["NbioVerif.Properties.C05"], "drivers": ["jobqdrv", "wscbdrv"], "harness": ["hjobq", "hwscb"],
-        "runs": [JOBQ_RUN, WSUP_RUN],
+        "lean": ["NbioVerif.Properties.C05"], "drivers": ["jobqdrv", "wscbdrv", "stopdrv"], "harness": ["hjobq", "hwscb", "hstop"],
+        "runs": [JOBQ_RUN, WSUP_RUN, HSIM_RUN],
         "cs": [cs_conc.cs_conn_submit, cs_conc.cs_conn_drainer, cs_conc.cs_conn_close_flip, cs_conc.cs_nbhttp_close_routed],
         "search": search_c05,
         "oracles": ["c05-"],
